@@ -83,6 +83,29 @@ def _is_prime(n):
     return True
 
 
+def _ec_add(p, a, P, Q):
+    if P is None:
+        return Q
+    if Q is None:
+        return P
+    if P[0] == Q[0] and (P[1] + Q[1]) % p == 0:
+        return None
+    if P == Q:
+        l = (3 * P[0] * P[0] + a) * pow(2 * P[1], p - 2, p) % p
+    else:
+        l = (Q[1] - P[1]) * pow(Q[0] - P[0], p - 2, p) % p
+    x = (l * l - P[0] - Q[0]) % p
+    return (x, (l * (P[0] - x) - P[1]) % p)
+
+
+def _point_order(p, a, P):
+    k, Q = 1, P
+    while Q is not None:
+        Q = _ec_add(p, a, Q, P)
+        k += 1
+    return k
+
+
 _ENT = lambda n: b"\x01" * n
 _TOYS = {}
 
@@ -105,7 +128,8 @@ def toy_generator(p, a, b):
                 cnt += 2
                 if basis is None:
                     basis = (x, pow(al, (p + 1) // 4, p))
-        order = cnt
+        order = _point_order(p, a, basis)
+        assert cnt % order == 0
     else:
         assert a == 0 and p % 3 == 2
         order = p + 1
@@ -219,7 +243,7 @@ def _der_ints(rng, tier):
 def _sig_pairs(rng, tier):
     ints = _der_ints(rng, tier)
     small = [v for v in ints if 0 <= v < (1 << 300)]
-    pairs = [(r, 1) for r in ints] + [(1, s) for s in ints]
+    pairs = [(r, 1) for r in ints] + [(1, s) for s in (ints if tier != "quick" else ints[::3])]
     for _ in range(400 if tier == "quick" else 8000):
         pairs.append((rng.choice(small), rng.choice(small)))
     for _ in range(60 if tier == "quick" else 1500):
@@ -503,9 +527,16 @@ def model_cases(rng, tier):
     for g, nr, nv, budget in plan:
         ga = gen_args(g)
         blobs = _sec_blobs_for(g, rng, nr, nv, budget)
-        if g is K1:
-            blobs += list(_small_strings(2))
         seen = set()
+        if g is K1:
+            # every byte string of length 0..2 (all refused at 256 bits; quick: strict mode only for the bulk)
+            for b in _small_strings(2):
+                seen.add(b)
+                full = (not quick) or len(b) <= 1 or b[0] < 8
+                yield Case("sec_to_public_pair %s %s T" % (ga, arg(b)), (lambda g=g, b=b: call(_impl_sec, g, b, True)))
+                if full:
+                    yield Case("sec_to_public_pair %s %s F" % (ga, arg(b)), (lambda g=g, b=b: call(_impl_sec, g, b, False)))
+                    yield Case("key_from_sec %s %s" % (ga, arg(b)), (lambda g=g, b=b: call(_impl_from_sec, g, b)))
         for b in blobs:
             if b in seen:
                 continue
@@ -672,7 +703,8 @@ def chk_sec_roundtrip(sym, se, c):
     if k2.sec() != blob or k2.hash160() != k.hash160() or k2.hash160(is_compressed=not c) != k.hash160(is_compressed=not c):
         return {"kind": "sec-roundtrip-hash160", "sec": blob.hex()}
     try:
-        a1, a2 = k.address(), k2.address()
+        with contextlib.redirect_stdout(io.StringIO()):
+            a1, a2 = k.address(), k2.address()
     except ImportError:
         a1 = a2 = None      # groestl address layer not installed
     if a1 != a2:
